@@ -274,8 +274,139 @@ fn check_unterminated(label: &str, lines: &[String], hist: &mut BTreeMap<String,
     n
 }
 
+/// `callsites` group: a run-time error inside a FUNCTION (directly, or one FUNCTION deeper) that was called from every
+/// kind of expression position — conditions of IF / ELSEIF / WHILE / DO / LOOP, SELECT subjects and CASE tests, FOR
+/// bounds, PRINT items, arguments, subscripts, single-line IF parts — each preceded by statements of an earlier branch or
+/// body, at module level and inside a SUB. Returns (label, lines, expected rows: failing statement, call sites innermost first).
+fn callsite_programs() -> Vec<(String, Vec<String>, Vec<u32>)> {
+    // (label, lines before the call line, the call line with {} for the call, lines after)
+    let positions: Vec<(&str, Vec<&str>, &str, Vec<&str>)> = vec![
+        ("IF condition", vec![], "IF {} > 1 THEN", vec!["PRINT \"t\"", "END IF"]),
+        ("ELSEIF condition", vec!["IF Z% <> 0 THEN", "PRINT \"a\"", "PRINT \"b\""], "ELSEIF {} > 1 THEN", vec!["PRINT \"c\"", "ELSE", "PRINT \"d\"", "END IF"]),
+        ("second ELSEIF condition", vec!["IF Z% <> 0 THEN", "PRINT \"a\"", "ELSEIF Z% = 5 THEN", "PRINT \"b\"", "PRINT \"b2\""], "ELSEIF {} > 1 THEN", vec!["PRINT \"c\"", "END IF"]),
+        ("SELECT CASE subject", vec!["PRINT \"before\""], "SELECT CASE {}", vec!["CASE 1", "PRINT \"one\"", "END SELECT"]),
+        ("second CASE test", vec!["SELECT CASE 5", "CASE 1", "PRINT \"one\"", "PRINT \"one2\""], "CASE {}", vec!["PRINT \"two\"", "CASE ELSE", "PRINT \"else\"", "END SELECT"]),
+        ("CASE range limit", vec!["SELECT CASE 5", "CASE 1", "PRINT \"one\""], "CASE 2 TO {}", vec!["PRINT \"two\"", "END SELECT"]),
+        ("CASE IS test", vec!["SELECT CASE 5", "CASE 1", "PRINT \"one\""], "CASE IS < {}", vec!["PRINT \"two\"", "END SELECT"]),
+        ("third item of a CASE list", vec!["SELECT CASE 5", "CASE 1", "PRINT \"one\""], "CASE 2, 3, {}", vec!["PRINT \"two\"", "END SELECT"]),
+        ("WHILE condition", vec!["PRINT \"before\""], "WHILE {} > 1", vec!["PRINT \"w\"", "WEND"]),
+        ("DO WHILE condition", vec!["PRINT \"before\""], "DO WHILE {} > 1", vec!["PRINT \"w\"", "LOOP"]),
+        ("DO UNTIL condition", vec!["PRINT \"before\""], "DO UNTIL {} < 1", vec!["PRINT \"w\"", "LOOP"]),
+        ("LOOP WHILE condition", vec!["DO", "PRINT \"body\"", "PRINT \"body2\""], "LOOP WHILE {} > 1", vec![]),
+        ("LOOP UNTIL condition", vec!["DO", "PRINT \"body\"", "Z% = Z% + 1"], "LOOP UNTIL {} < 1", vec![]),
+        ("LOOP UNTIL after a nested block", vec!["DO", "IF Z% = 0 THEN", "PRINT \"in\"", "END IF"], "LOOP UNTIL {} < 1", vec![]),
+        ("FOR start", vec!["PRINT \"before\""], "FOR I% = {} TO 3", vec!["NEXT"]),
+        ("FOR limit", vec!["PRINT \"before\""], "FOR I% = 1 TO {}", vec!["NEXT"]),
+        ("FOR step", vec!["PRINT \"before\""], "FOR I% = 1 TO 3 STEP {}", vec!["NEXT"]),
+        ("PRINT item", vec!["PRINT \"before\""], "PRINT 1; {}", vec![]),
+        ("assignment", vec!["PRINT \"before\""], "X% = 1 + {}", vec![]),
+        ("argument of a SUB call", vec!["PRINT \"before\""], "Show {}", vec![]),
+        ("array subscript", vec!["PRINT \"before\""], "PRINT AR%({})", vec![]),
+        ("argument of a built-in function", vec!["PRINT \"before\""], "PRINT LEN(STR$({}))", vec![]),
+        ("single-line IF condition", vec!["PRINT \"before\""], "IF {} > 1 THEN PRINT \"t\" ELSE PRINT \"f\"", vec![]),
+        ("single-line IF, THEN part", vec!["PRINT \"before\""], "IF Z% = 0 THEN X% = {} ELSE PRINT \"f\"", vec![]),
+        ("single-line IF, ELSE part", vec!["PRINT \"before\""], "IF Z% <> 0 THEN PRINT \"t\" ELSE X% = {}", vec![]),
+        ("condition of an IF inside a FOR body after a statement", vec!["FOR I% = 1 TO 2", "PRINT \"i\"; I%"], "IF {} > 1 THEN PRINT \"t\"", vec!["NEXT"]),
+        ("ELSEIF condition inside a WHILE body", vec!["WHILE Z% = 0", "Z% = 1", "IF Z% = 0 THEN", "PRINT \"a\""], "ELSEIF {} > 1 THEN", vec!["PRINT \"c\"", "END IF", "WEND"]),
+    ];
+    let mut out = vec![];
+    for (label, before, call_line, after) in &positions {
+        for depth in 1..=2 {
+            for in_sub in [false, true] {
+                let mut lines: Vec<String> = vec!["DECLARE FUNCTION Fail% (A%)".into(), "DECLARE FUNCTION Via% (A%)".into(), "DECLARE SUB Show (V%)".into(), "DECLARE SUB Work ()".into(), "DIM SHARED AR%(3)".into(), "PRINT \"start\"".into()];
+                let call = if depth == 1 { "Fail%(0)" } else { "Via%(0)" };
+                let mut body: Vec<String> = before.iter().map(|s| s.to_string()).collect();
+                body.push(call_line.replace("{}", call));
+                body.extend(after.iter().map(|s| s.to_string()));
+                let call_row_in_body = before.len();
+                let (call_row, work_call_row): (u32, Option<u32>);
+                if in_sub {
+                    lines.push("Work".into());
+                    let wr = lines.len() as u32;
+                    lines.push("PRINT \"not reached\"".into());
+                    lines.push("END".into());
+                    lines.push("SUB Work".into());
+                    lines.push("PRINT \"in work\"".into());
+                    call_row = (lines.len() + call_row_in_body + 1) as u32;
+                    lines.extend(body);
+                    lines.push("END SUB".into());
+                    work_call_row = Some(wr);
+                } else {
+                    call_row = (lines.len() + call_row_in_body + 1) as u32;
+                    lines.extend(body);
+                    lines.push("PRINT \"not reached\"".into());
+                    lines.push("END".into());
+                    work_call_row = None;
+                }
+                lines.push("FUNCTION Via% (A%)".into());
+                lines.push("PRINT \"via\"".into());
+                lines.push("Via% = Fail%(A%) + 1".into());
+                let via_row = lines.len() as u32;
+                lines.push("END FUNCTION".into());
+                lines.push("FUNCTION Fail% (A%)".into());
+                lines.push("PRINT \"fail\"".into());
+                lines.push("Fail% = 10 / A%".into());
+                let fail_row = lines.len() as u32;
+                lines.push("END FUNCTION".into());
+                lines.push("SUB Show (V%)".into());
+                lines.push("PRINT V%".into());
+                lines.push("END SUB".into());
+                let mut rows = vec![fail_row];
+                if depth == 2 {
+                    rows.push(via_row);
+                }
+                rows.push(call_row);
+                if let Some(w) = work_call_row {
+                    rows.push(w);
+                }
+                out.push((format!("{} | depth {} | {}", label, depth, if in_sub { "inside a SUB" } else { "module level" }), lines, rows));
+            }
+        }
+    }
+    out
+}
+
+fn check_callsites() -> Value {
+    let mut hist: BTreeMap<String, u64> = BTreeMap::new();
+    let mut bads = vec![];
+    let mut n = 0u64;
+    for (label, lines, want_rows) in callsite_programs() {
+        for (ename, eol) in [("LF", "\n"), ("CR LF", "\r\n")] {
+            let text = lines.join(eol) + eol;
+            let o = run_pipeline(&text, &RunOpts { budget: 100_000, ..RunOpts::default() });
+            n += 1;
+            let verdict = match &o.end {
+                End::RuntimeError { code: Some(11), rows, cols, .. } => {
+                    if rows != &want_rows {
+                        Some(format!("rows {:?}, expected {:?} (the failing statement, then the call sites innermost first)", rows, want_rows))
+                    } else if let Some((r, c)) = rows.iter().zip(cols.iter()).find(|(r, c)| **c < 1 || **c as usize > lines[**r as usize - 1].len() + 1) {
+                        Some(format!("column {} of row {} lies outside that row's text {:?}", c, r, lines[*r as usize - 1]))
+                    } else {
+                        None
+                    }
+                }
+                other => Some(format!("expected Division by zero (11), got {:?}", other)),
+            };
+            match verdict {
+                None => *hist.entry("located:call site of an expression position".into()).or_insert(0) += 1,
+                Some(m) => {
+                    *hist.entry("differ".into()).or_insert(0) += 1;
+                    if bads.len() < 30 {
+                        let pos = label.split(" | ").next().unwrap_or("");
+                        bads.push(json!({"sig": format!("C11|callsites|{}", pos), "summary": format!("an error inside a FUNCTION called from: {} ({} line ends) — {} — program: {:?}", label, ename, m, super::truncate_text(&text, 700)), "text": text, "case": {"callsites": true}}));
+                    }
+                }
+            }
+        }
+    }
+    json!({"n": n, "nontrivial": n, "hist": hist, "bad": bads})
+}
+
 pub fn worker(case: &Value) -> Value {
     let quick = case["quick"].as_bool().unwrap_or(true);
+    if case["callsites"].as_bool() == Some(true) {
+        return check_callsites();
+    }
     if let Some(v) = case["unterminated"].as_u64() {
         let mut hist: BTreeMap<String, u64> = BTreeMap::new();
         let mut bads = vec![];
@@ -385,6 +516,7 @@ pub fn drive(tier: &str) -> i32 {
     for k in 0..variants {
         cases.push(json!({"quick": quick, "unterminated": variant_of(k, quick)}));
     }
+    cases.push(json!({"quick": quick, "callsites": true}));
     // far away: the fault beyond row 65 535 / beyond column 255 and 65 535
     let mut far_programs = 0u64;
     {
@@ -424,9 +556,9 @@ pub fn drive(tier: &str) -> i32 {
         run.capped = true;
     }
     let mut ev = Evidence::new("exploration");
-    ev.set("rule", "base programs (IF > FOR > SELECT and WHILE > DO at module level; SUB Outer -> SUB Inner -> FUNCTION Deep% called from inside blocks; 8 variants: NEXT with / without counter, DO forms, textual order of the subprograms, ordinary / STATIC subprograms) x every injection site (first / inner / last statement of the module, of every block and of every subprogram, single-line IF bodies; call depth 0..3) x 16 fault statements of 7 kinds (syntax, type mismatch, undefined label, argument count, division by zero, subscript out of range, overflow) x layouts (LF / CR LF / CR x blank lines x trailing comments x colon-joined statements x keyword case x indentation). Oracle: the printer's position map (self-checked against the text): stage and kind of the error, row = row of the injected statement, column inside its text (syntax errors: up to two columns after it), and for run-time errors the rows of the active call sites, innermost first. far: the same programs pushed down by 65 535 / 65 536 (thorough also 254, 65 534, 70 001) comment and blank lines and / or pushed right by a string assignment of 256 / 65 536 (thorough also 255, 257, 65 535, 70 001) columns on the line of the injected statement — rows, columns and call-site rows must follow. history: at every site a statement that fails and is trapped (KILL / OPEN of a missing file, LEFT$ with a negative count, a division by zero; ON ERROR GOTO at the top of the module, RESUME NEXT) stands right before the injected run-time fault, followed by ON ERROR GOTO 0: the fault is reported with the same row, column and call-site rows as without that history. unterminated: every base program with one closing line (NEXT, WEND, LOOP, END IF, END SELECT, END SUB, END FUNCTION) removed, under LF / CR LF / CR line ends with and without a final line end: a syntax error whose row and column are the same under the three conventions and lie inside the text or immediately at its end.");
+    ev.set("rule", "base programs (IF > FOR > SELECT and WHILE > DO at module level; SUB Outer -> SUB Inner -> FUNCTION Deep% called from inside blocks; 8 variants: NEXT with / without counter, DO forms, textual order of the subprograms, ordinary / STATIC subprograms) x every injection site (first / inner / last statement of the module, of every block and of every subprogram, single-line IF bodies; call depth 0..3) x 16 fault statements of 7 kinds (syntax, type mismatch, undefined label, argument count, division by zero, subscript out of range, overflow) x layouts (LF / CR LF / CR x blank lines x trailing comments x colon-joined statements x keyword case x indentation). Oracle: the printer's position map (self-checked against the text): stage and kind of the error, row = row of the injected statement, column inside its text (syntax errors: up to two columns after it), and for run-time errors the rows of the active call sites, innermost first. far: the same programs pushed down by 65 535 / 65 536 (thorough also 254, 65 534, 70 001) comment and blank lines and / or pushed right by a string assignment of 256 / 65 536 (thorough also 255, 257, 65 535, 70 001) columns on the line of the injected statement — rows, columns and call-site rows must follow. history: at every site a statement that fails and is trapped (KILL / OPEN of a missing file, LEFT$ with a negative count, a division by zero; ON ERROR GOTO at the top of the module, RESUME NEXT) stands right before the injected run-time fault, followed by ON ERROR GOTO 0: the fault is reported with the same row, column and call-site rows as without that history. unterminated: every base program with one closing line (NEXT, WEND, LOOP, END IF, END SELECT, END SUB, END FUNCTION) removed, under LF / CR LF / CR line ends with and without a final line end: a syntax error whose row and column are the same under the three conventions and lie inside the text or immediately at its end. callsites: a division by zero inside a FUNCTION (directly, or one FUNCTION deeper) called from 27 expression positions (IF / ELSEIF / second ELSEIF / WHILE / DO WHILE / DO UNTIL / LOOP WHILE / LOOP UNTIL conditions, SELECT CASE subject, second CASE test, CASE range / IS / list item, FOR start / limit / step, PRINT item, assignment, argument of a SUB and of a built-in, array subscript, the three parts of a single-line IF, conditions inside loop bodies), each after statements of an earlier branch or body, at module level and inside a SUB, under LF and CR LF: the rows are exactly the failing statement, then the call sites innermost first (the row of the header / statement that holds the call), every column inside its row.");
     ev.set("exhaustive", !run.capped);
-    ev.set("plan", json!({"variants": variants, "sites": sites, "faults": FAULTS.len(), "layouts": nl, "programs": total, "far_programs": far_programs}));
+    ev.set("plan", json!({"variants": variants, "sites": sites, "faults": FAULTS.len(), "layouts": nl, "programs": total, "far_programs": far_programs, "callsite_programs": 2 * callsite_programs().len()}));
     ev.set("distinct_nontrivial", run.nontrivial);
     ev.assume("syntax faults are local to one simple statement, so the offending statement is unambiguous; faults that change the block structure are left to C07");
     run.finish(ev)
